@@ -16,6 +16,7 @@ import (
 	"bytes"
 	"fmt"
 	"path/filepath"
+	"runtime"
 	"sort"
 	"strings"
 	"testing"
@@ -386,4 +387,56 @@ func c10DiffClass(got, want []string) string {
 	}
 	sort.Strings(ks)
 	return strings.Join(ks, "+")
+}
+
+// TestVerifC10Race is the free-running pass for the "no data races" clause: the same scenario
+// bodies, real sync primitives (no explorer attached), built with -race, repeated at several
+// GOMAXPROCS values. It is sampling and only supports the claim (DESIGN section 9); the race
+// detector's report is turned into a violation by vcheck.
+func TestVerifC10Race(t *testing.T) {
+	root := vTempDir(t, "c10race-")
+	vWriteFiles(t, root, c10Tree)
+	reps := vEnvInt("VERIF_RACE_REPS", 6)
+	runs := 0
+	for _, procs := range []int{2, 4, 16} {
+		old := runtime.GOMAXPROCS(procs)
+		for rep := 0; rep < reps; rep++ {
+			for si := range c10Scenarios {
+				sc := &c10Scenarios[si]
+				var paths []string
+				for _, f := range sc.Files {
+					paths = append(paths, filepath.Join(root, f))
+				}
+				// add a few more files so that several goroutines hit the shared caches and tables
+				var out bytes.Buffer
+				l, err := NewLinter(&out, &LinterOptions{WorkingDir: root, Format: sc.Format})
+				if err != nil {
+					t.Fatal(err)
+				}
+				if _, err := l.LintFiles(paths, nil); err != nil {
+					t.Fatal(err)
+				}
+				runs++
+			}
+			// all files of all scenarios in one run
+			var all []string
+			seen := map[string]bool{}
+			for _, sc := range c10Scenarios {
+				for _, f := range sc.Files {
+					if !seen[f] {
+						seen[f] = true
+						all = append(all, filepath.Join(root, f))
+					}
+				}
+			}
+			var out bytes.Buffer
+			l, _ := NewLinter(&out, &LinterOptions{WorkingDir: root})
+			if _, err := l.LintFiles(all, nil); err != nil {
+				t.Fatal(err)
+			}
+			runs++
+		}
+		runtime.GOMAXPROCS(old)
+	}
+	fmt.Printf("VERIF-RACE-RUNS %d\n", runs)
 }
